@@ -687,7 +687,17 @@ fn p_sql(p: &P, rev: u32, leaf: &mut u32) -> Option<String> {
         P::Between(c, a, b) => format!("{} BETWEEN {} AND {}", col(c), sql_lit(kind(c), a)?, sql_lit(kind(c), b)?),
         P::And(a, b) => format!("({} AND {})", p_sql(a, rev, leaf)?, p_sql(b, rev, leaf)?),
         P::Or(a, b) => format!("({} OR {})", p_sql(a, rev, leaf)?, p_sql(b, rev, leaf)?),
-        P::Not(a) => format!("(NOT {})", p_sql(a, rev, leaf)?),
+        P::Not(a) => {
+            // the two spellings of a negated BETWEEN
+            if let P::Between(c, lo, hi) = a.as_ref() {
+                let r = rev & (1 << (*leaf % 32)) != 0;
+                *leaf += 1;
+                if r {
+                    return Some(format!("{} NOT BETWEEN {} AND {}", SQLCOLS[*c as usize % NCOLS], sql_lit(SQLKINDS[*c as usize % NCOLS], lo)?, sql_lit(SQLKINDS[*c as usize % NCOLS], hi)?));
+                }
+            }
+            format!("(NOT {})", p_sql(a, rev, leaf)?)
+        }
     })
 }
 
